@@ -206,9 +206,19 @@ def ctorsOfType (fuel : Nat) (reg : St) (ty : Node) : List Ctor :=
     | .mk .tsUnion _ [.mk .list _ ts] => ts.foldl (fun acc t => ctorUnion acc (ctorsOfType fuel reg t)) []
     | .mk .tsIntersection _ [.mk .list _ ts] => ts.foldl (fun acc t => ctorUnion acc (ctorsOfType fuel reg t)) []
     | .mk .tsIndexed _ [objT, idxT] =>
-      match resolveIndexed FUEL reg objT idxT with
-      | (some t, _) => ctorsOfType fuel reg t
-      | (none, _) => []
+      -- array / tuple / `[string]` indexing: as the model reads it (checked against the code by the correspondence)
+      let viaModel := match resolveIndexed FUEL reg objT idxT with
+        | (some t, _) => ctorsOfType fuel reg t
+        | (none, _) => []
+      -- property indexing `T['k']`, `T['a' | 'b']`: the union of the types of the SELECTED declared properties of T —
+      -- T read by `propsOfType`, i.e. own and inherited members, through aliases, intersections and utility wrappers
+      match propsOfType fuel reg objT, literalStrings fuel reg idxT with
+      | .ok props, some keys =>
+        let sel := props.filter fun p => keys.contains (specKeyName p.key)
+        if sel.isEmpty then viaModel else
+        sel.foldl (fun acc p => ctorUnion acc
+          (if p.isMethod then [.named "Function"] else match p.ty with | some t => ctorsOfType fuel reg t | none => [.anyValue])) []
+      | _, _ => viaModel
     | .mk .tsTypeRef _ [.mk .ident (n :: b :: _) _, tparams] =>
       match lookupReg reg.typeAliases (n, b) with
       | some t => ctorsOfType fuel reg t
